@@ -213,10 +213,12 @@ class C20:
             hl = [l for l in range(nlab) if rng.random() < 0.5]
             htr = []
             for l in hl:
-                ranks = [0, 1, 2]; rng.shuffle(ranks)
-                for v in (0, 1, 2):
-                    if not (holes and rng.random() < 0.2):
-                        htr.append([l, v, ranks[v]])
+                # a hierarchy is a ranking of the values it knows: the values kept (a hole = a value without rank, KeyError when
+                # it is needed) are ranked 0..k-1 in a random order, so two ranks never differ by more than len - 1 (HierOK)
+                kept = [v for v in (0, 1, 2) if not (holes and rng.random() < 0.2)]
+                order = kept[:]; rng.shuffle(order)
+                for v in kept:
+                    htr.append([l, v, order.index(v)])
             prof["hier"] = {"hl": hl, "htr": htr, "stat": stat, "dynp": dynp, "dyn": dyn, "holes": holes}
             yield {"cls": 1 if directed else 0, "rem": 1, "ops": ops, "labels": labels, "start": start, "delta": delta, "alphas": alphas, "prof": prof,
                    "ptype": rng.randint(0, 4), "nmap": nmap, "lmap": lmap, "equal": mode == 1, "ids": "int", "src": "rand",
